@@ -490,6 +490,104 @@ Proof.
     destruct H as (v & s' & E). unfold run. rewrite E. exists v. reflexivity.
 Qed.
 
+(** * tools.ParseBIOSDataRegion: a value iff the fixed part (36 bytes) and, from version 3 on, the flags word are there *)
+
+(** [needs n r]: [r] returns a value only from a reader that holds at least [n] bytes *)
+Definition needs (n : Z) {A} (r : rd A) : Prop := forall s v s', r s = ROk v s' -> n <= lenZ (s_rest s).
+Lemma needs_0 {A} (r : rd A) : needs 0 r.
+Proof. intros s v s' _. apply lenZ_nonneg. Qed.
+Lemma needs_read_le_bind k m {B} (f : Z -> rd B) : 0 < k -> (forall x, needs m (f x)) -> needs (k + m) (bind (read_le k) f).
+Proof.
+  intros Hk Hf s v s' E. destruct (Z_le_gt_dec k (lenZ (s_rest s))) as [L|L].
+  - destruct (read_le_fits k s f Hk L) as (x & s1 & E1 & E2). rewrite E1 in E. specialize (Hf x s1 v s' E). lia.
+  - exfalso. destruct (read_n_short k s Hk) as (s1 & R); [lia|].
+    unfold read_le in E. unfold bind at 1 in E. unfold bind at 1 in E. rewrite R in E. discriminate.
+Qed.
+
+(** a read that fits, with the value it delivers *)
+Lemma read_le_fits_v n s {B} (k : Z -> rd B) : 0 < n -> n <= lenZ (s_rest s) ->
+  exists a r s1, s_rest s = a ++ r /\ lenZ a = n /\ s_rest s1 = r /\ bind (read_le n) k s = k (le_val a) s1.
+Proof.
+  intros Hn Hl. destruct (read_n_fits n s Hn Hl) as (a & r & E1 & E2 & E3).
+  exists a, r, (set_rest (tick s) r). repeat split; auto.
+  unfold read_le. unfold bind at 1. unfold bind at 1. rewrite E3. reflexivity.
+Qed.
+
+Definition bios_ver (d : list Z) : Z := le_val (firstn 4 (skipn 8 d)).
+
+Lemma lenZ_app (a b : list Z) : lenZ (a ++ b) = lenZ a + lenZ b.
+Proof. unfold lenZ. rewrite app_length. lia. Qed.
+
+Lemma Q_bios_data_value_iff : forall d,
+  (exists v, outcome_of (run parse_bios_data d) = Ok v) <-> (36 <= lenZ d /\ (3 <= bios_ver d -> 40 <= lenZ d)).
+Proof.
+  intros d. destruct (Z_le_gt_dec 36 (lenZ d)) as [L|L].
+  2:{ split; [|intros [H _]; lia]. intros [v Hv]. exfalso. unfold run in Hv.
+      destruct (parse_bios_data (mkSt d 0 0)) as [a s'| | |] eqn:E; try discriminate.
+      assert (N : needs 36 parse_bios_data).
+      { unfold parse_bios_data.
+        change 36 with (8 + (4 + (4 + (8 + (8 + (4 + 0)))))).
+        repeat (apply needs_read_le_bind; [lia | intros ?]). apply needs_0. }
+      specialize (N _ _ _ E). cbn [s_rest] in N. lia. }
+  (* the fixed part is there: run it *)
+  unfold run, parse_bios_data.
+  destruct (read_le_fits_v 8 (mkSt d 0 0) (fun _sz => ver <- read_le 4 ;; ssz <- read_le 4 ;; r1 <- read_le 8 ;; r2 <- read_le 8 ;;
+      nl <- read_le 4 ;;
+      sf <- (if (3 <=? ver) && (ver <? 5) then read_le 4 else ret 0) ;;
+      mf <- (if 5 <=? ver then (m <- read_le 4 ;;
+                                ret [1; bit m 0; 0; (if Z.land m 6 =? 4 then 1 else 0); (if Z.land m 6 =? 2 then 1 else 0)])
+             else ret [0; 0; 0; 0; 0]) ;;
+      ret ([ver; ssz; r1; r2; nl; sf] ++ mf))) as (a1 & r1 & s1 & D1 & A1 & R1 & E1); [lia | cbn [s_rest]; lia |].
+  cbn [s_rest] in D1. rewrite E1. clear E1. cbn beta.
+  assert (L1 : lenZ r1 = lenZ d - 8) by (rewrite D1, lenZ_app; lia).
+  match goal with |- context [bind (read_le 4) ?k s1] =>
+    destruct (read_le_fits_v 4 s1 k) as (a2 & r2 & s2 & D2 & A2 & R2 & E2); [lia | rewrite R1; lia |] end.
+  rewrite E2. clear E2. cbn beta. rewrite R1 in D2.
+  assert (HV : bios_ver d = le_val a2).
+  { unfold bios_ver. rewrite D1, D2. f_equal.
+    unfold lenZ in A1, A2. replace 8%nat with (length a1 + 0)%nat by lia. rewrite skipn_app, skipn_all2 by lia.
+    replace (length a1 + 0 - length a1)%nat with 0%nat by lia. cbn [skipn app].
+    replace 4%nat with (length a2 + 0)%nat by lia. rewrite firstn_app_2. cbn. now rewrite app_nil_r. }
+  assert (L2 : lenZ (s_rest s2) = lenZ d - 12) by (rewrite R2; rewrite D2, lenZ_app in L1; lia).
+  set (ver := le_val a2) in *.
+  (* four more fixed reads *)
+  do 4 match goal with
+  | |- context [bind (read_le ?w) ?k ?s] =>
+      let x := fresh "x" in let s' := fresh "s" in let E := fresh "E" in let LL := fresh "LL" in
+      destruct (read_le_fits w s k) as (x & s' & E & LL); [lia | lia |]; rewrite E; clear E; cbn beta
+  end.
+  rewrite HV.
+  (* the version-dependent tail *)
+  match goal with |- context [bind _ _ ?s] => assert (LR : lenZ (s_rest s) = lenZ d - 36) by lia end.
+  destruct ((3 <=? ver) && (ver <? 5)) eqn:C1.
+  - apply andb_true_iff in C1. destruct C1 as [C1 C2]. apply Z.leb_le in C1. apply Z.ltb_lt in C2.
+    assert (C3 : 5 <=? ver = false) by (apply Z.leb_gt; lia). rewrite C3.
+    destruct (Z_le_gt_dec 40 (lenZ d)) as [L40|L40].
+    + match goal with |- context [bind (read_le 4) ?k ?s] =>
+        destruct (read_le_fits 4 s k) as (xx & ss & EE & LLL); [lia | lia |]; rewrite EE end.
+      split; [intros _; split; [lia | intros; lia] | intros _; eexists; reflexivity].
+    + split; [|intros [_ H]; lia]. intros [v Hv]. exfalso.
+      match type of Hv with context [bind (read_le 4) ?k ?s] =>
+        destruct (read_n_short 4 s) as (s' & R); [lia | lia |] end.
+      unfold read_le in Hv. unfold bind at 1 in Hv. unfold bind at 1 in Hv. rewrite R in Hv. discriminate.
+  - destruct (5 <=? ver) eqn:C3.
+    + apply Z.leb_le in C3.
+      destruct (Z_le_gt_dec 40 (lenZ d)) as [L40|L40].
+      * unfold ret at 1. unfold bind at 1.
+        match goal with |- context [bind (bind (read_le 4) ?k1) ?k2 ?s] =>
+          destruct (read_le_fits 4 s k1) as (xx & ss & EE & LLL); [lia | lia |] end.
+        unfold bind at 1. rewrite EE.
+        split; [intros _; split; [lia | intros; lia] | intros _; eexists; reflexivity].
+      * split; [|intros [_ H]; lia]. intros [v Hv]. exfalso.
+        unfold ret at 1 in Hv. unfold bind at 1 in Hv.
+        match type of Hv with context [bind (bind (read_le 4) ?k1) ?k2 ?s] =>
+          destruct (read_n_short 4 s) as (s' & R); [lia | lia |] end.
+        unfold bind at 1 in Hv. unfold read_le in Hv. unfold bind at 1 in Hv. unfold bind at 1 in Hv. rewrite R in Hv. discriminate.
+    + apply Z.leb_gt in C3. apply andb_false_iff in C1.
+      split; [intros _; split; [lia|] | intros _; eexists; reflexivity].
+      intros H3. destruct C1 as [C1|C1]; [apply Z.leb_gt in C1 | apply Z.ltb_ge in C1]; lia.
+Qed.
+
 (** * PEM block loops over the observed pem.Decode calls *)
 
 Lemma trace_lookup_ok : forall t n ty r, trace_ok t = true -> trace_lookup t n = Some (ty, r) -> 0 <= r < n.
@@ -651,6 +749,19 @@ Lemma ex_calc_image_offset :
   calc_image_offset None None true 65536 0 = Ok 18446744069414649856 /\
   calc_image_offset None None false 65536 0 = Err E_OTHER.
 Proof. vm_compute. repeat split. Qed.
+
+(** * tools.ParseACM after fiano *)
+Lemma Q_parse_acm_after : forall subtype total user,
+  value_or_error (run (parse_acm_after subtype faithful total) user) /\
+  res_alloc (run (parse_acm_after subtype faithful total) user) <= 5 * Z.max (lenZ user) (lenZ total) + 262140 /\
+  (0 < Z.land subtype ACMModuleSubtypeAncModule -> outcome_of (run (parse_acm_after subtype faithful total) user) = Ok ANC_MARK).
+Proof.
+  intros subtype total user. unfold parse_acm_after. destruct (0 <? Z.land subtype ACMModuleSubtypeAncModule) eqn:E.
+  - unfold run, ret, value_or_error. cbn [res_alloc outcome_of s_alloc].
+    pose proof (lenZ_nonneg user). pose proof (lenZ_nonneg total).
+    split; [split; discriminate|]. split; [lia | reflexivity].
+  - split; [apply P_acm_info_total|]. split; [apply P_acm_info_alloc|]. apply Z.ltb_ge in E. lia.
+Qed.
 
 (** * tpmdetection.local *)
 Lemma Q_local_files : forall dm cm d,
